@@ -186,7 +186,11 @@ func c29Run(ops []c29Op) (V, Verdict) {
 			log = log[:0]
 			n, werr := track.Write(raw)
 			if uerr != nil {
-				obs = append(obs, 4, 2)
+				if werr != nil && len(log) == 0 {
+					obs = append(obs, 4, 2)
+				} else { // not what an unmarshal error looks like: shows up as a model mismatch too
+					obs = append(obs, 4, 3, byte(len(log)))
+				}
 				if werr == nil || n != 0 || len(log) != 0 {
 					fail("static-write-bytes-unparsed-delivered", fmt.Sprintf("op %d: Write of %x (unmarshal: %v) returned (%d, %v) and reached %d writers", k, raw, uerr, n, werr, len(log)))
 				}
